@@ -131,5 +131,6 @@ def applyF : Eff → FileDb → FileDb
   | .assign s t n f v, F => fAssign F s t n f v
   | .unassign s t n f, F => fUnassign F s t n f
   | .rmTree _, F => F
+  | .copyExtra _, F => F
 
 end EupsModel.DbFile
